@@ -134,6 +134,10 @@ class Tracker:
     def visit_edge(self, ps, block, succ_index, state):
         pass
 
+    def visit_expr(self, ps, block, ln, expr, state):
+        """Called (report pass) with the state *before* each top-level element / branch condition."""
+        pass
+
     def join_event(self, key, a, b):
         return "?"
 
@@ -465,6 +469,9 @@ class FunctionRun:
             if n.get("k") == "un" and n["op"] == "&":
                 r = lvalue_root(n["e"])
                 if r and r[0] == "var" and "id" in r[1]:
+                    # &p[i] / &p->f with p a pointer takes the address of what p points to, not of p
+                    if strip(n["e"]) is not r[2] and (r[1].get("t") or "").endswith("*"):
+                        continue
                     s.add(r[1]["id"])
         return s
 
@@ -603,6 +610,7 @@ class FunctionRun:
             for s in states:
                 if self.reporting:
                     self.tr.visit_element(self, block, el, s)
+                    self.tr.visit_expr(self, block, el["ln"], el["x"], s)
                 for (s2, v, ref) in self.eval(el["x"], s):
                     nxt.append(s2)
             states = self.dedup(nxt)
@@ -611,6 +619,9 @@ class FunctionRun:
         succ = block["succ"]
         term = block.get("term")
         outs = []
+        if self.reporting and term is not None and "c" in term:
+            for s in states:
+                self.tr.visit_expr(self, block, term["ln"], term["c"], s)
         if term is not None and "c" in term and len(succ) >= 2:
             if term["k"] == "switch":
                 cases = [(i, sc) for i, sc in enumerate(succ)]
@@ -1250,6 +1261,10 @@ class FunctionRun:
                             self.setval(ns, key, v2)
                             ns.pop(("T", key), None)
                             val = v2
+                    elif root[0] == "var" and (root[2].get("t") or "").endswith("*"):
+                        # p[i] = v / p->f = v through a pointer variable: the pointer itself is unchanged
+                        for lid in self.addr_taken:
+                            ns.pop(("L", lid), None)
                     else:
                         # element / sub-object of a tracked aggregate: weak update
                         k2 = self.key_of(root[2])
@@ -1357,7 +1372,8 @@ class FunctionRun:
                 continue
             if a0.get("k") == "un" and a0["op"] == "&":
                 r = lvalue_root(a0["e"])
-                if r and r[0] == "var" and "id" in r[1]:
+                if r and r[0] == "var" and "id" in r[1] and not (
+                        strip(a0["e"]) is not r[2] and (r[1].get("t") or "").endswith("*")):
                     key = ("L", r[1]["id"])
                     if key in state:
                         if ns is None:
